@@ -424,6 +424,10 @@ func c08Run(p *Plan, x *Ctx, out *Outcome) {
 			if ln := strings.ToLower(o.S); ln == "rnd" || ln == "random" {
 				// the value depends on how many draws the process made before: not part of the event log
 				evDesc = "<random>"
+			} else if ln == "now" || ln == "ticks" {
+				// the value is the simulated time of the call, which depends on where in the schedule (counted in
+				// yield steps) the clock jumps landed; the oracle checks it against the call interval instead
+				evDesc = "<clock>"
 			}
 			out.Event("t%d.%d %s %s err=%s panic=%v", ti, i, o.Op, evDesc, ErrCode(r.err), r.panicV)
 			where := fmt.Sprintf("task %d op %d: %s %s(%v) via %s", ti, i, o.Op, o.S, o.Vs, map[bool]string{true: "expression", false: "IFunction.Calculate"}[o.I == 1])
